@@ -423,6 +423,23 @@ M('R12-vars-radd-const', 'R12',
   'Vars.__rsub__')
 
 # ---------------------------------------------------------------------------------------- R14 / R15 / R27 / R28
+_FLIP_NEW = """            indices_neg = np.where(primal.ub == 0)[0]
+            if len(indices_neg) > 0:
+                flip = np.ones(nv)
+                flip[indices_neg] = -1
+                primal_linear = primal_linear @ sp.diags(flip, format='csr')
+"""
+M('R14-colflip-before-bound-rows', 'R14',
+  [('lp.py', "            nv = primal_linear.shape[1]\n            if nub > 0:\n",
+    "            nv = primal_linear.shape[1]\n" + _FLIP_NEW + "            if nub > 0:\n"),
+   ('lp.py', "            indices_neg = np.where(primal.ub == 0)[0]\n\n            dual_linear = csr_matrix(primal_linear.T)",
+    "\n            dual_linear = csr_matrix(primal_linear.T)"),
+   ('lp.py', "                dual_linear[indices_neg, :] = - dual_linear[indices_neg, :]\n", "")],
+  expect='R14|lp.Model.do_math')
+T('R14-colflip-after-bound-rows', 'R14',
+  [('lp.py', "            indices_neg = np.where(primal.ub == 0)[0]\n\n            dual_linear = csr_matrix(primal_linear.T)",
+    _FLIP_NEW + "\n            dual_linear = csr_matrix(primal_linear.T)"),
+   ('lp.py', "                dual_linear[indices_neg, :] = - dual_linear[indices_neg, :]\n", "")])
 M('R14-fixed-sign', 'R14',
   [('lp.py', "                primal_const = np.concatenate((primal_const,\n                                               -primal.lb[indices_fixed]))",
     "                primal_const = np.concatenate((primal_const,\n                                               primal.lb[indices_fixed]))")], 'pattern lb=3 ub=3')   # F04
